@@ -291,7 +291,7 @@ pub fn exec(case: &Case, log: &mut CaseLog) {
     }
 }
 
-fn strategy(dim: usize) -> BoxedStrategy<Case> {
+pub fn strategy(dim: usize) -> BoxedStrategy<Case> {
     (0u8..6, proptest::collection::vec(proptest::collection::vec(-1024i32..=1024, dim), dim + 1), proptest::collection::vec(-64i32..=64, dim), -8i32..=8, any::<u64>(), any::<[u8; 4]>())
         .prop_map(move |(fam, raw, shift, scale_pow, perm_salt, aux)| {
             let mut pts: Vec<Vec<f64>> = match fam {
